@@ -148,6 +148,15 @@ let handle (f : string list) : string =
             | Some None -> "syntax-error"
             | None -> "panic")
     with Bad m -> "driver-error:" ^ m)
+  | ["c27tokens"; ts] ->
+    (try
+      let toks = List.map (fun t ->
+        if t = "(" then TLP else if t = ")" then TRP
+        else if String.length t > 1 && t.[0] = 'a' then TAtom (n_of_int (int_of_string (String.sub t 1 (String.length t - 1))))
+        else if String.length t > 1 && t.[0] = 's' then TSym (bytes_of_hex (String.sub t 1 (String.length t - 1)))
+        else raise (Bad ("bad token " ^ t))) (List.filter (fun x -> x <> "") (String.split_on_char ' ' ts)) in
+      (match c27_parse toks with Some e -> "ok:" ^ print_expr e | None -> "syntax-error")
+    with Bad m -> "driver-error:" ^ m)
   | _ -> "driver-error:unknown-command"
 
 let () = main_loop handle
